@@ -58,7 +58,7 @@ func (PoolH) Prepare(t *testing.T, c *hx.Case) {
 	}
 }
 
-var txKinds = []string{"valid", "valid", "valid", "child", "child", "child", "double-low", "double-high", "double-high", "orphan", "orphan-parent", "double-and-child", "double-and-child", "just-mature", "just-mature", "just-final", "just-final",
+var txKinds = []string{"valid", "valid", "valid", "child", "child", "child", "double-low", "double-high", "double-high", "orphan", "orphan-parent", "double-and-child", "double-and-child", "just-mature", "just-mature", "just-final", "just-final", "seqlock", "seqlock",
 	"badsig", "overspend", "immature", "dup", "dupinput", "nonfinal", "local", "trusted"}
 
 func (PoolH) Gen(prop string, seed uint64, tier string) *hx.Case {
@@ -407,6 +407,36 @@ func (p *poolRun) doTx(o *PoolOp) {
 		p.m.SignAll(t, sp, -1, ledger.COk)
 		if p.submit(t, path) {
 			p.out.Probe("just_final_time_lock_accepted", 1)
+		}
+	case "seqlock":
+		// a relative lock-time (BIP68) on a confirmed or a pooled output: met exactly / one unit short, by height or by time
+		ins := p.pickCoins(r, 1, r.Chance(0.2), false)
+		if len(ins) == 0 {
+			return
+		}
+		t := p.m.MakeTx(height, ins, 1, feeFor(sum(ins)), -1, ledger.COk)
+		t.Ver = 2
+		c := ins[0].Coin
+		short := uint32(r.Intn(2))
+		if r.Chance(0.6) {
+			t.In[0].Seq = (height - c.Height + short) & 0xffff
+		} else {
+			base := p.l.Genesis.MTP()
+			if c.Height >= 1 {
+				if a := p.model.Ancestor(c.Height - 1); a != nil {
+					base = a.MTP()
+				}
+			}
+			mtp := p.model.MTP()
+			if mtp <= base {
+				return
+			}
+			t.In[0].Seq = 1<<22 | ((mtp-base)/512+short)&0xffff
+		}
+		p.m.SignAll(t, []ledger.Coin{c}, -1, ledger.COk)
+		p.out.Probe("relative_lock_time_submitted", 1)
+		if p.submit(t, path) {
+			p.out.Probe("relative_lock_time_accepted", 1)
 		}
 	case "orphan":
 		ins := p.pickCoins(r, 1, false, false)
@@ -875,6 +905,20 @@ func (p *poolRun) checkPool(when string) {
 			}
 			if so, ok := txpool.SpentOutputs[btc.UIdx(ti.Prev.Hash[:], ti.Prev.N)]; !ok || so != k {
 				p.viol("pool.spentoutputs-index", "%s: SpentOutputs has no (or a wrong) entry for input %d of pooled %s", when, i, hs(id))
+				return
+			}
+		}
+		if csv := p.l.P.CSVHeight; csv != 0 && p.model.Height+1 >= csv {
+			coins := make([]ledger.Coin, len(lt.In))
+			for i, ti := range lt.In {
+				if c, ok := view[ti.Prev]; ok {
+					coins[i] = c
+				} else {
+					coins[i].Height = p.model.Height + 1 // an output of a pooled transaction: confirmed in the next block at the earliest
+				}
+			}
+			if !p.l.SequenceLocksMet(lt, coins, p.model.Height+1, p.model) {
+				p.viol("listing.not-minable", "%s: pooled transaction %s (version %d, sequence of input 0 %#x) does not meet its relative lock-time (BIP68) in the next block (height %d): a block assembled from the listing is invalid", when, hs(id), lt.Ver, lt.In[0].Seq, p.model.Height+1)
 				return
 			}
 		}
